@@ -496,7 +496,43 @@ def run(pid, tier):
 
 
 def replay(pid, path):
+    """re-run the recorded history / probe session against the current tree"""
+    global _PROBES
     rec = json.load(open(path))
-    print(json.dumps(rec, indent=1, default=str)[:3000])
-    print("(replay: the record holds the failing sequence/files; re-run `./check %s`)" % pid)
-    return 1
+    print(json.dumps({k: v for k, v in rec.items() if k not in ("text", "stdout_tail")}, indent=1, default=str)[:2500])
+    kind = rec.get("kind")
+    if kind == "history_probe" and rec.get("text"):
+        _PROBES = [(rec["file"], rec["text"])]
+        solo = _work_probe(dict(polluter=None, idxs=[0]))["out"]
+        pol = [n for n in C06_FILES if n == rec.get("after")] or list(C06_FILES)
+        bad = []
+        for n in pol:
+            out = _work_probe(dict(polluter=n, idxs=[0]))["out"]
+            if not out or not solo or out[0] != solo[0]:
+                bad.append(n)
+        print("the probe alone:", (solo or {}).get(0, "session died"), "\ndiffers after:", bad)
+        if bad:
+            print(f"VIOLATION property={pid} replay={path}")
+            return 1
+        return 0
+    if kind in ("history_cli", "history_library") and rec.get("sequence"):
+        seq = rec["sequence"]
+        if kind == "history_cli":
+            w = _work_hist(dict(idx=0, seq=seq))
+            solos = {n: _work_hist(dict(idx=0, seq=[n])) for n in set(seq)}
+            bad = [j for j, n in enumerate(seq)
+                   if json.dumps(w["per"].get(str(j), []), sort_keys=True) != json.dumps(solos[n]["per"].get("0", []), sort_keys=True)]
+        else:
+            w = _work_library(dict(idx=0, seq=seq))
+            solos = {n: _work_library(dict(idx=0, seq=[n]))["out"][0] for n in set(seq)}
+            bad = [j for j, o in enumerate(w["out"] or [])
+                   if (o["status"], o["fatal"], o["exc"], o["diags"]) != (solos[o["name"]]["status"], solos[o["name"]]["fatal"], solos[o["name"]]["exc"], solos[o["name"]]["diags"])]
+            if not w["out"] or len(w["out"]) != len(seq):
+                bad = ["session died"]
+        print("positions whose findings differ from the solo run:", bad)
+        if bad:
+            print(f"VIOLATION property={pid} replay={path}")
+            return 1
+        return 0
+    print("(this record kind is re-evaluated by `./check %s`)" % pid)
+    return 2
